@@ -494,7 +494,7 @@ func Slots(p *core.Prog, r *core.Report) {
 	r.Count("slot_child_runs", nRun)
 	r.Count("slot_child_releases", nRel)
 	r.Floor("slot_child_runs", 7)
-	r.Floor("slot_child_releases", 8)
+	r.Floor("slot_child_releases", 4)
 
 	slotInit(p, r, si)
 	selfRedeem(p, r, si)
